@@ -24,6 +24,22 @@ pub enum Gap {
     Ambiguous,
 }
 
+/// Does the number grammar itself answer this token with "more to come" (in some state of the number in progress)?
+/// Such a token is swallowed like a conjunction instead of being looked at as a word; e.g. a compound ending in the
+/// conjunction (`soixante-douze-et`), or pt `eaaa`, which the Portuguese lemmatiser reduces to the conjunction `e`.
+fn grammar_swallows(api: &dyn crate::api::Api, lower: &str) -> bool {
+    for init in ["", "20", "100", "1000"] {
+        let mut b = text2num::digit_string::DigitString::new();
+        if !init.is_empty() {
+            let _ = b.put(init.as_bytes());
+        }
+        if api.apply(lower, &mut b) == Err(crate::api::ErrK::Incomplete) {
+            return true;
+        }
+    }
+    false
+}
+
 /// classify the tokens between two neighbouring numbers (policy model, 15 lines)
 pub fn classify_gap(ls: &LangSet, code: &str, toks: &[IdTok]) -> Gap {
     let api = ls.api(code);
@@ -42,7 +58,7 @@ pub fn classify_gap(ls: &LangSet, code: &str, toks: &[IdTok]) -> Gap {
                 // linking word, or the conjunction (swallowed by the number grammar or listed as linking)
             } else if lower == conj {
                 amb = true; // a conjunction flagged "not a number part" that the language does not list as linking
-            } else if !t.nan && api.apply(lower, &mut text2num::digit_string::DigitString::new()) == Err(crate::api::ErrK::Incomplete) {
+            } else if !t.nan && grammar_swallows(api, lower) {
                 // a token the number grammar itself answers with "more to come" (e.g. a compound ending in the
                 // conjunction, `soixante-douze-et`): swallowed like a conjunction, same unsettled class
                 amb = true;
